@@ -335,6 +335,9 @@ func GenPlan(r *mrand.Rand, pool *Pool, cfg *Cfg, class string) *Plan {
 			r.Read(op.RawBody)
 			if l > 0 {
 				op.RawBody[0] |= 0x80
+				if l >= 8 && r.Intn(3) == 0 { // the requests real clients send raw: smartcard add / remove / constrained add, extension
+					op.RawBody[0] = core.Pick[byte](r, 20, 21, 26, 27, 21, 20)
+				}
 			}
 			op.RawRep = make([]byte, core.Pick(r, 0, 1, 1, 9, 100, 5000, 65536))
 			r.Read(op.RawRep)
